@@ -333,6 +333,15 @@ def kill_cases(r, n):
             setup.append(w_oneshot("s", "sha256", key, shared[1]))
         cases.append({"setup": setup, "victim": w_oneshot(vf, "sha256", key, shared[1]), "key": key, "old": old,
                       "new": shared, "others": {b"other": shared}})
+    # an OVERWRITE with other bytes: at every kill point the key still reads its old value or already the new one (the old
+    # content is not given up before the new record is in), and a key SHARING the old bytes is never harmed
+    for vf, shared_old in (("s", False), ("a", False), ("s", True)):
+        key = b"kover"
+        oldv = ("sha256", b"other value") if shared_old else ("sha512", b"the value before the overwrite")
+        newv = ("sha256", b"the value after the overwrite, a little longer")
+        setup = [w_oneshot("s", "sha256", b"other", b"other value"), w_oneshot("s", oldv[0], key, oldv[1])]
+        cases.append({"setup": setup, "victim": w_oneshot(vf, newv[0], key, newv[1]), "key": key, "old": oldv,
+                      "new": newv, "others": {b"other": ("sha256", b"other value")}})
     # a streamed writer with a declared size that receives FEWER bytes (its commit is rejected), the bytes being
     # another key's value: at no kill point of open / write / commit may that key's content be harmed
     for vf, keyed in (("s", True), ("s", False), ("a", False)):
@@ -342,7 +351,7 @@ def kill_cases(r, n):
                   f"wwrite W1 {hx(shared[1])}", "wcommit W1"]
         cases.append({"setup": [w_oneshot("s", "sha256", b"other", b"other value")], "victim": victim, "key": kk,
                       "old": None, "new": None, "others": {b"other": shared}})
-    for i in range(max(0, n - 6)):
+    for i in range(max(0, n - 9)):
         key = r.pick([b"k", "ключ-é".encode(), b"tab\tkey", b"key with spaces"])
         algo = r.pick(L.ALGOS)
         old = (r.pick(L.ALGOS), b"old value " + bytes([i])) if r.chance(0.6) else None
